@@ -43,26 +43,32 @@ PRELUDE = {
     "mklist": "fn mklist(a) -> List {\n  Cons(a, Cons(a + 1.0, Nil))\n}\n",
     "Tree": "type rec Tree = Leaf(float) | Node(Tree, Tree)\n",
     "tsum": "fn tsum(tree: Tree) -> float {\n  match tree {\n    Leaf(value) => value,\n    Node(left, right) => tsum(left) + tsum(right)\n  }\n}\n",
+    "Option": "type rec Option = Some(float) | None\n",
+    "unwrap_or": "fn unwrap_or(opt: Option, default: float) -> float {\n  match opt {\n    Some(value) => value,\n    None => default\n  }\n}\n",
     "E": "type E = One(float) | Two(float)\n",
     "etest": "fn etest(e){\n  match e {\n    One(v) => v*1.0,\n    Two(v) => v*2.0\n  }\n}\n",
+    "rep": "fn rep(n, f:(float)->float){\n  if (n > 0.0) {\n    rep(n - 1.0, f)\n  } else {\n    f(1.0)\n  }\n}\n",
+    "compose": "fn compose(f:(float)->float, g:(float)->float){\n  |x| { f(g(x)) }\n}\n",
+    "tl": "fn tl(l: List) -> List {\n  match l {\n    Nil => Nil,\n    Cons(h, t) => t\n  }\n}\n",
     "gacc": "let gacc = 0.0\n",
     "bump": "fn bump(){\n  gacc = gacc + 1.0\n}\n",
 }
-PRELUDE_ORDER = ["List", "Tree", "E", "gacc", "hof", "hof2", "twice", "named", "mk", "mk2", "mkpair", "mkcounter", "sum", "len",
-                 "mklist", "tsum", "etest", "bump"]
-DEPS = {"sum": ["List"], "len": ["List"], "mklist": ["List"], "tsum": ["Tree"], "etest": ["E"], "bump": ["gacc"]}
+PRELUDE_ORDER = ["List", "Tree", "E", "Option", "unwrap_or", "gacc", "hof", "hof2", "twice", "named", "mk", "mk2", "mkpair", "mkcounter", "sum", "len",
+                 "mklist", "tsum", "etest", "bump", "rep", "compose", "tl"]
+DEPS = {"sum": ["List"], "len": ["List"], "mklist": ["List"], "tsum": ["Tree"], "etest": ["E"], "bump": ["gacc"], "tl": ["List"], "unwrap_or": ["Option"]}
 
 
 class Unit:
     """one construct instance: `lines` (statements, may mention {up} = a float variable in scope and {arg}) and the
     name of the float variable holding its result"""
 
-    def __init__(self, tag, variant, lines, res, needs=(), globals_=(), wrappers=(), sched=False):
+    def __init__(self, tag, variant, lines, res, needs=(), globals_=(), wrappers=(), sched=False, extra=()):
         self.tag, self.variant, self.lines, self.res = tag, variant, list(lines), res
         self.needs, self.globals, self.wrappers, self.sched = list(needs), list(globals_), list(wrappers), sched
+        self.extra = list(extra)
 
     def copy(self, **kw):
-        u = Unit(self.tag, self.variant, self.lines, self.res, self.needs, self.globals, self.wrappers, self.sched)
+        u = Unit(self.tag, self.variant, self.lines, self.res, self.needs, self.globals, self.wrappers, self.sched, self.extra)
         for k, v in kw.items():
             setattr(u, k, v)
         return u
@@ -80,11 +86,29 @@ def make_unit(r, n, tags):
         return " + ".join([f"{f}({a})"] * k) if k else c2
 
     if tag == "local0":
+        var = r.pick(["let", "let", "two-args", "stateful", "chain"])
+        if var == "two-args":
+            return Unit(tag, var, [f"let f{n} = |x, y| {{ x*{c1} + y }}", f"let {v} = f{n}({arg}, {up})"], v)
+        if var == "stateful":
+            return Unit(tag, var, [f"let f{n} = | | {{ self + {c1} }}", f"let {v} = f{n}()"], v)
+        if var == "chain":
+            return Unit(tag, var, [f"let f{n} = |x| {{ x*{c1} }}", f"let g{n} = |y| {{ y + {c2} }}", f"let {v} = g{n}(f{n}({arg}))"], v)
         body = r.pick([f"x*{c1}", f"x + {c2}", f"x*x + {c1}"])
         return Unit(tag, "let", [f"let f{n} = |x| {{ {body} }}", f"let {v} = {callsum(f'f{n}', max(1, calls))}"], v)
     if tag == "direct":
+        var = r.pick(["call", "call", "nested", "if-both", "calls-global", "mem"])
+        if var == "nested":
+            return Unit(tag, var, [f"let {v} = (|x| {{ (|y| {{ y + x*{up} }})({c1}) }})({arg})"], v)
+        if var == "if-both":
+            return Unit(tag, var, [f"let {v} = if ({up} > 2.0) {{ (|x| {{ x*{up} }})({arg}) }} else {{ (|x| {{ x + {up} }})({c1}) }}"], v)
+        if var == "calls-global":
+            return Unit(tag, var, [f"let {v} = (|q| {{ G{n}(q) + {up} }})({arg})"], v, needs=["mk"], globals_=[f"let G{n} = mk({c1})"], extra=["gcall"])
+        if var == "mem":
+            return Unit(tag, var, [f"let {v} = (|x| {{ mem(x) + {up} }})({arg})"], v)
         body = r.pick([f"x*{up}", f"x + {up}*{c1}", f"{up} - x"])
         return Unit(tag, "call", [f"let {v} = (|x| {{ {body} }})({arg})"], v)
+    if tag == "pipe" and r.chance(1, 3):
+        return Unit(tag, "chain", [f"let {v} = {arg} |> |x| {{ x + {up} }} |> |y| {{ y * {up} }}"], v)
     if tag == "pipe":
         return Unit(tag, "pipe", [f"let {v} = {arg} |> |x| {{ x + {up} }}"], v)
     if tag == "gcall":
@@ -95,13 +119,19 @@ def make_unit(r, n, tags):
     if tag == "gcounter":
         g = f"G{n}"
         return Unit(tag, "counter", [f"let {v} = {g}()"], v, needs=["mkcounter"], globals_=[f"let {g} = mkcounter({c1})"])
+    if tag == "enum" and r.chance(1, 3):
+        return Unit(tag, "option", [f"let o{n} = Some({arg})", f"let {v} = unwrap_or(o{n}, {c1}) + unwrap_or(None, {c2})"], v, needs=["unwrap_or"])
     if tag == "enum":
         ctor = r.pick(["One", "Two"])
         return Unit(tag, ctor, [f"let {v} = etest({ctor}({arg}))"], v, needs=["etest"])
     if tag == "leafbox":
         return Unit(tag, "unused", [f"let l{n} = Cons({arg}, Nil)", f"let {v} = {up}"], v, needs=["List"])
     if tag == "letcap":
-        var = r.pick(["call", "nocall", "mut", "two-upvalues", "nested"])
+        var = r.pick(["call", "nocall", "mut", "two-upvalues", "nested", "tuple-local", "counter"])
+        if var == "tuple-local":
+            return Unit(tag, var, [f"let t{n} = (|x| {{ x + {up} }}, {c1})", f"let f{n} = t{n}.0", f"let {v} = f{n}({arg}) + t{n}.1"], v)
+        if var == "counter":
+            return Unit(tag, var, [f"let m{n} = 0.0", f"let f{n} = | | {{", f"  m{n} = m{n} + 1.0", f"  m{n}", "}", f"let {v} = f{n}() + f{n}()"], v)
         if var == "call":
             return Unit(tag, var, [f"let f{n} = |x| {{ x*{up} }}", f"let {v} = {callsum(f'f{n}', max(1, calls))}"], v)
         if var == "nocall":
@@ -113,7 +143,9 @@ def make_unit(r, n, tags):
             return Unit(tag, var, [f"let w{n} = {up} + {c1}", f"let f{n} = |x| {{ x*{up} + w{n} }}", f"let {v} = f{n}({arg})"], v)
         return Unit(tag, var, [f"let f{n} = |x| {{ x*{up} }}", f"let g{n} = |y| {{ f{n}(y) + {c1} }}", f"let {v} = g{n}({arg})"], v)
     if tag == "fnarg":
-        var = r.pick(["lambda", "named", "local", "global", "two", "twice"])
+        var = r.pick(["lambda", "named", "local", "global", "two", "twice", "recursive"])
+        if var == "recursive":
+            return Unit(tag, var, [f"let {v} = rep({r.pick(['1.0', '2.0', '3.0'])}, |y| {{ y + {up} }})"], v, needs=["rep"])
         if var == "lambda":
             return Unit(tag, var, [f"let {v} = hof(|y| {{ y*{up} }}, {arg})"], v, needs=["hof"])
         if var == "named":
@@ -126,7 +158,14 @@ def make_unit(r, n, tags):
             return Unit(tag, var, [f"let {v} = hof2(|y| {{ y*{up} }}, named, {arg})"], v, needs=["hof2", "named"])
         return Unit(tag, var, [f"let {v} = twice(|y| {{ y + {up} }}, {arg})"], v, needs=["twice"])
     if tag == "fnret":
-        var = r.pick(["call", "let", "pair", "mk2"])
+        var = r.pick(["call", "let", "pair", "mk2", "if-arms", "compose", "global-reassign"])
+        if var == "if-arms":
+            return Unit(tag, var, [f"let g{n} = if ({up} > 2.0) {{ mk({c1}) }} else {{ mk({c2}) }}", f"let {v} = g{n}({arg})"], v, needs=["mk"])
+        if var == "compose":
+            return Unit(tag, var, [f"let g{n} = compose(|x| {{ x + {up} }}, |y| {{ y * {c1} }})", f"let {v} = g{n}({arg})"], v, needs=["compose"],
+                        extra=["fnarg"])
+        if var == "global-reassign":
+            return Unit(tag, var, [f"G{n} = mk({up})", f"let {v} = G{n}({arg})"], v, needs=["mk"], globals_=[f"let G{n} = mk({c1})"])
         if var == "call":
             return Unit(tag, var, [f"let {v} = mk({up})({arg})"], v, needs=["mk"])
         if var == "let":
@@ -135,7 +174,14 @@ def make_unit(r, n, tags):
             return Unit(tag, var, [f"let (p{n}, q{n}) = mkpair({up})", f"let {v} = p{n}({arg}) + q{n}({c1})"], v, needs=["mkpair"])
         return Unit(tag, var, [f"let g{n} = mk2({up}, {c1})", f"let {v} = g{n}({arg})"], v, needs=["mk2"])
     if tag == "box":
-        var = r.pick(["sum1", "sum2", "two-unused", "match", "ret", "shared", "tree", "global"])
+        var = r.pick(["sum1", "sum2", "two-unused", "match", "ret", "shared", "tree", "global", "tail", "captured", "global-replace"])
+        if var == "tail":
+            return Unit(tag, var, [f"let l{n} = Cons({arg}, Cons({c1}, Cons({c2}, Nil)))", f"let {v} = sum(tl(l{n}))"], v, needs=["sum", "tl"])
+        if var == "captured":
+            return Unit(tag, var, [f"let l{n} = Cons({arg}, Nil)", f"let f{n} = | | {{ sum(l{n}) }}", f"let {v} = f{n}()"], v, needs=["sum"],
+                        extra=["letcap"])
+        if var == "global-replace":
+            return Unit(tag, var, [f"GL{n} = Cons({arg}, Nil)", f"let {v} = sum(GL{n})"], v, needs=["sum"], globals_=[f"let GL{n} = Cons({c1}, Nil)"])
         if var == "sum1":
             return Unit(tag, var, [f"let l{n} = Cons({arg}, Nil)", f"let {v} = sum(l{n})"], v, needs=["sum"])
         if var == "sum2":
@@ -172,7 +218,7 @@ class Prog:
         self.layout = layout
 
     def tags(self):
-        return sorted(set(u.tag for u in self.units))
+        return sorted(set(t for u in self.units for t in [u.tag] + u.extra))
 
     def variants(self):
         return sorted(set(f"{u.tag}/{u.variant}" + ("".join("^" + w for w in u.wrappers)) for u in self.units))
@@ -242,8 +288,12 @@ def make_case(seed, idx, profile, avoid=()):
         for _ in range(nw):
             w = r.pick(WRAPPERS)
             # a scheduled closure inside a helper would capture the helper's parameter: fine; `@` inside a lambda body is fine too
-            # known compiler crash C12-X1: `match` on a boxed variant inside a lambda body
-            if w == "lambda" and u.tag == "box" and u.variant == "match":
+            # known compiler crash C12-X1: a call with >= 2 arguments (or a `match`) directly inside the body of a
+            # directly called lambda panics the compiler or overflows its stack
+            if w == "lambda" and "helper" not in ws and any("," in l or "match" in l for l in u.lines):
+                continue
+            # `{ G = e …` at the start of a block expression is read as a record literal
+            if w == "block" and u.variant in ("global-reassign", "global-replace"):
                 continue
             if w not in ws:
                 ws.append(w)
